@@ -6,4 +6,6 @@ import "github.com/panjf2000/gnet/v2/pkg/netpoll"
 
 const variant = "poll_opt"
 
+const pollerFile = "poller_epoll_ultimate.go"
+
 func polling(p *netpoll.Poller) error { return p.Polling() }
